@@ -331,6 +331,16 @@ func tamperOne(p *run.Part, cfg *seqx.Config, cc c06Case) {
 		truncate(w, cc.Dst, cc.Trunc)
 	}
 	pre := seqx.SnapPre(w, false)
+	// what every entry really is (as signed and stored): the destination's own copies and the source's originals
+	genuine := map[string]string{}
+	for _, e := range dst.GetEntries().Slice() {
+		genuine[e.GetHash().String()] = seqx.DumpEntry(e)
+	}
+	for _, e := range src.Values().Slice() {
+		if _, ok := genuine[e.GetHash().String()]; !ok {
+			genuine[e.GetHash().String()] = seqx.DumpEntry(e)
+		}
+	}
 	_, inDst := dst.Get(bad.GetHash())
 	var jerr error
 	pv, stack := run.Safe(func() { _, jerr = dst.Join(tsrc, cc.Size-1) })
@@ -358,6 +368,17 @@ func tamperOne(p *run.Part, cfg *seqx.Config, cc c06Case) {
 	if pv != nil {
 		p.Violate("tamper", "C06:merge-panic:"+cc.Fault+":"+run.PanicSite(stack), fmt.Sprintf("%s panicked: %v at %s", desc, pv, stack), cc)
 		return
+	}
+	// Whatever the merge answered: nothing the destination now shows (Values, Heads, Get) may differ from the
+	// genuine, signed entry of that hash. Content that was never verified must not become visible.
+	if pv == nil && cc.Fault != "none" && cc.Fault != "foreign-id" {
+		shown := append(append([]iface.IPFSLogEntry{}, dst.Values().Slice()...), dst.Heads().Slice()...)
+		for _, e := range shown {
+			if g, ok := genuine[e.GetHash().String()]; ok && seqx.DumpEntry(e) != g {
+				p.Violate("tamper", "C06:unverified-content-exposed:"+cc.Fault, fmt.Sprintf("%s: the destination now shows, under the hash of %s, content that differs from the signed entry (merge error: %v):\n  shown   %s\n  genuine %s", desc, string(vals[cc.Pos].GetPayload()), jerr, seqx.DumpEntry(e), g), cc)
+				return
+			}
+		}
 	}
 	isCandidate := !inDst
 	union := map[string]bool{}
